@@ -47,6 +47,82 @@ use crate::common::{engine_error, verif_dir, Args, Report, Tier, Violation};
 const QUICK_SIZES: &[usize] = &[0, 1, 8192, 8193];
 const FULL_SIZES: &[usize] = &[0, 1, 8191, 8192, 8193, 16384, 24577];
 const NAME_POOL: &[&str] = &["a", "b", "c", "ab", "ba", "bc"];
+/// Subsets of the extra names have at most this many names.
+const MAX_EXTRA_NAMES: usize = 2;
+
+/// A directory entry name: arbitrary bytes (unix), not necessarily UTF-8.
+#[derive(Clone, PartialEq, Eq, PartialOrd, Ord, Hash)]
+pub struct Name(pub Vec<u8>);
+
+impl Name {
+  pub fn new(b: &[u8]) -> Name { Name(b.to_vec()) }
+  fn os(&self) -> &std::ffi::OsStr { <std::ffi::OsStr as std::os::unix::ffi::OsStrExt>::from_bytes(&self.0) }
+  /// Readable, reversible text form: printable ASCII except `%` as is, every other byte as `%XX`.
+  pub fn encoded(&self) -> String {
+    let mut out = String::new();
+    for &b in &self.0 {
+      if (0x21..=0x7E).contains(&b) && b != b'%' { out.push(b as char); } else { out.push_str(&format!("%{:02X}", b)); }
+    }
+    out
+  }
+  pub fn decode(text: &str) -> Result<Name, String> {
+    let t = text.as_bytes();
+    let mut out = Vec::new();
+    let mut i = 0;
+    while i < t.len() {
+      if t[i] == b'%' {
+        let hex = text.get(i + 1..i + 3).ok_or_else(|| format!("bad escape in name {:?}", text))?;
+        out.push(u8::from_str_radix(hex, 16).map_err(|_| format!("bad escape in name {:?}", text))?);
+        i += 3;
+      } else { out.push(t[i]); i += 1; }
+    }
+    if out.is_empty() || out == b"." || out == b".." || out.contains(&b'/') || out.contains(&0) || out.len() > 255 { return Err(format!("bad entry name {:?}", text)); }
+    Ok(Name(out))
+  }
+}
+
+impl std::fmt::Debug for Name {
+  fn fmt(&self, f: &mut std::fmt::Formatter<'_>) -> std::fmt::Result { write!(f, "\"{}\"", self.encoded()) }
+}
+
+fn names_json(names: &[Name]) -> Value { Value::Array(names.iter().map(|n| json!(n.encoded())).collect()) }
+
+/// Extra entry names: one representative per shortcut a name-hashing implementation could take. With the reason.
+pub fn extra_names() -> Vec<(Name, &'static str)> {
+  let long = |last: u8| { let mut v = vec![b'L'; 199]; v.push(last); Name(v) };
+  vec![
+    (Name::new(b"\xFF"), "not UTF-8, differs from %FE only in the invalid byte (lossy conversion maps both to U+FFFD)"),
+    (Name::new(b"\xFE"), "not UTF-8"),
+    (Name::new(b"x\xE9"), "not UTF-8 (Latin-1 'xé'), differs from x%E8 only in the invalid byte"),
+    (Name::new(b"x\xE8"), "not UTF-8 (Latin-1 'xè')"),
+    (Name::new("\u{e9}".as_bytes()), "valid 2-byte UTF-8 'é', differs from 'è' only in the last byte of the sequence"),
+    (Name::new("\u{e8}".as_bytes()), "valid 2-byte UTF-8 'è'"),
+    (Name::new("\u{FFFD}".as_bytes()), "the lossy replacement character itself (equals the lossy form of %FF / %FE)"),
+    (Name::new(b"A"), "differs from 'a' only in case"),
+    (Name::new(b"a b"), "contains a space; concatenation of a, b with a space delimiter"),
+    (Name::new(b"b a"), "same, other read_dir order"),
+    (Name::new(b"a\n"), "prefix 'a' plus a separator-like character"),
+    (Name::new(b"a\nb"), "concatenation of a, b with a newline delimiter"),
+    (Name::new(b"b\na"), "same, other read_dir order"),
+    (long(b'0'), "200 bytes, differs from the other long name only in the last byte"),
+    (long(b'1'), "200 bytes"),
+  ]
+}
+
+/// Name sets over the extra names: every subset of at most two extra names, plus every pair (one of the six ASCII
+/// names, one extra name). Smallest first.
+pub fn extra_name_sets(extra: &[Name]) -> Vec<Vec<Name>> {
+  let mut sets: Vec<Vec<Name>> = Vec::new();
+  for (i, a) in extra.iter().enumerate() {
+    sets.push(vec![a.clone()]);
+    if MAX_EXTRA_NAMES >= 2 { for b in &extra[i + 1..] { sets.push(vec![a.clone(), b.clone()]); } }
+    for o in NAME_POOL { sets.push(vec![Name::new(o.as_bytes()), a.clone()]); }
+  }
+  for s in sets.iter_mut() { s.sort(); }
+  sets.sort_by_key(|s| (s.len(), s.iter().map(|x| x.0.len()).sum::<usize>(), s.clone()));
+  sets.dedup();
+  sets
+}
 const MAX_NAMES: usize = 3;
 /// The two explicit modification instants (whole seconds: representable on every file system).
 const T_SECS: [u64; 2] = [1_000_000_000, 1_500_000_000];
@@ -73,7 +149,7 @@ pub enum St {
   Absent,
   File { size: usize, var: Variant, mt: u8 },
   /// `names` is sorted and duplicate free; entries are created in this order as empty files.
-  Dir { names: Vec<String>, mt: u8 },
+  Dir { names: Vec<Name>, mt: u8 },
 }
 
 #[derive(Clone, Copy, PartialEq, Eq, PartialOrd, Ord, Hash, Debug)]
@@ -93,7 +169,7 @@ impl St {
     match self {
       St::Absent => json!({"kind": "absent"}),
       St::File { size, var, mt } => json!({"kind": "file", "size": size, "variant": var.as_str(), "mtime": mt_name(*mt)}),
-      St::Dir { names, mt } => json!({"kind": "dir", "names": names, "mtime": mt_name(*mt)}),
+      St::Dir { names, mt } => json!({"kind": "dir", "names": names_json(names), "mtime": mt_name(*mt)}),
     }
   }
   pub fn from_json(v: &Value) -> Result<St, String> {
@@ -115,9 +191,7 @@ impl St {
         let arr = v.get("names").and_then(|n| n.as_array()).ok_or("dir state without names")?;
         let mut names = Vec::new();
         for n in arr {
-          let n = n.as_str().ok_or("name not a string")?;
-          if n.is_empty() || n == "." || n == ".." || n.contains('/') || n.contains('\0') { return Err(format!("bad entry name {:?}", n)); }
-          names.push(n.to_string());
+          names.push(Name::decode(n.as_str().ok_or("name not a string")?)?);
         }
         names.sort();
         names.dedup();
@@ -140,21 +214,21 @@ pub fn content(size: usize, var: Variant) -> Vec<u8> {
 }
 
 /// All subsets of at most `MAX_NAMES` names of the pool, smallest first (count, total length, lexicographic).
-pub fn name_sets() -> Vec<Vec<String>> {
+pub fn name_sets() -> Vec<Vec<Name>> {
   let n = NAME_POOL.len();
-  let mut sets: Vec<Vec<String>> = Vec::new();
+  let mut sets: Vec<Vec<Name>> = Vec::new();
   for mask in 0u32..(1 << n) {
     if mask.count_ones() as usize > MAX_NAMES { continue; }
-    let mut s: Vec<String> = (0..n).filter(|i| mask & (1 << i) != 0).map(|i| NAME_POOL[i].to_string()).collect();
+    let mut s: Vec<Name> = (0..n).filter(|i| mask & (1 << i) != 0).map(|i| Name::new(NAME_POOL[i].as_bytes())).collect();
     s.sort();
     sets.push(s);
   }
-  sets.sort_by_key(|s| (s.len(), s.iter().map(|x| x.len()).sum::<usize>(), s.clone()));
+  sets.sort_by_key(|s| (s.len(), s.iter().map(|x| x.0.len()).sum::<usize>(), s.clone()));
   sets
 }
 
 /// The alphabet of path states, smallest first.
-pub fn alphabet(sizes: &[usize], sets: &[Vec<String>]) -> Vec<St> {
+pub fn alphabet(sizes: &[usize], sets: &[Vec<Name>]) -> Vec<St> {
   let mut out = vec![St::Absent];
   for &size in sizes {
     let vars: &[Variant] = match size {
@@ -171,8 +245,8 @@ pub fn alphabet(sizes: &[usize], sets: &[Vec<String>]) -> Vec<St> {
 /// Small alphabet for the quick tier's length-3 sequences.
 fn core_alphabet() -> Vec<St> {
   let mut out = alphabet(&[0, 1, 8193], &[]);
-  let d = |names: &[&str], mt: u8| St::Dir { names: names.iter().map(|s| s.to_string()).collect(), mt };
-  out.extend([d(&[], 0), d(&["a"], 0), d(&["a"], 1), d(&["ab"], 0), d(&["ba"], 0), d(&["a", "b"], 0)]);
+  let d = |names: &[&[u8]], mt: u8| { let mut n: Vec<Name> = names.iter().map(|s| Name::new(s)).collect(); n.sort(); St::Dir { names: n, mt } };
+  out.extend([d(&[], 0), d(&[b"a"], 0), d(&[b"a"], 1), d(&[b"ab"], 0), d(&[b"ba"], 0), d(&[b"a", b"b"], 0)]);
   out
 }
 
@@ -288,6 +362,8 @@ struct Tally {
   per_oracle: BTreeMap<&'static str, u64>,
   /// Judged (S1,S2,checker,route) cases of the pair phase.
   pair_judged: u64,
+  /// (S1,S2,checker) units run in the pair phase.
+  pair_units: u64,
   /// All cases where the reference relation was compared with the real checker's verdict (all phases).
   judged: u64,
   /// Cases evaluated but not judged (not claimed by the property).
@@ -306,7 +382,7 @@ struct Tally {
   findings: Vec<Finding>,
   findings_dropped: u64,
   /// Distinct colliding name-set pairs (hash checker consistent although the name sets differ).
-  collisions: BTreeSet<(Vec<String>, Vec<String>)>,
+  collisions: BTreeSet<(Vec<Name>, Vec<Name>)>,
   samples: BTreeMap<(u8, Ck, Kind, Kind, Expect), ((u64, u64), Value)>,
   items_done: BTreeMap<&'static str, u64>,
   /// CPU-side accounting (summed over workers): time in state materialisation and in calls into pie.
@@ -323,6 +399,7 @@ impl Tally {
     self.evaluations += o.evaluations;
     for (k, v) in o.per_oracle { *self.per_oracle.entry(k).or_insert(0) += v; }
     self.pair_judged += o.pair_judged;
+    self.pair_units += o.pair_units;
     self.judged += o.judged;
     self.not_judged += o.not_judged;
     self.nontrivial += o.nontrivial;
@@ -366,7 +443,7 @@ struct Ctx {
   /// Pool of pre-built directories (one per name set, entries created once in a fresh directory), moved to the path
   /// with `rename` and moved back when the state is left: `mkdir`/`rmdir` cost ~0.5 ms each on this file system.
   pool_dir: PathBuf,
-  pool: BTreeMap<Vec<String>, PathBuf>,
+  pool: BTreeMap<Vec<Name>, PathBuf>,
   /// The pooled directory currently sitting at the path.
   at_path: Option<PathBuf>,
 }
@@ -424,15 +501,25 @@ impl Ctx {
     }
   }
 
-  fn build_dir(at: &Path, names: &[String]) -> H<()> {
+  /// Builds the directory and verifies that the file system lists exactly these names, byte for byte (a file
+  /// system that refuses, normalises or case-folds a name is an engine error naming the entry).
+  fn build_dir(at: &Path, names: &[Name]) -> H<()> {
     io_ctx(fs::create_dir(at), "create dir", at)?;
-    for n in names { let p = at.join(n); io_ctx(File::create(&p), "create entry", &p)?; }
+    for n in names {
+      let p = at.join(n.os());
+      File::create(&p).map_err(|e| format!("the file system refuses the entry name {:?} (in {}): {}", n, at.display(), e))?;
+    }
+    let l = Self::listing(at)?;
+    if l != names { return Err(format!("the file system lists {:?} after creating the entries {:?} in {}", l, names, at.display())); }
     Ok(())
   }
 
-  fn listing(at: &Path) -> H<Vec<String>> {
+  fn listing(at: &Path) -> H<Vec<Name>> {
     let mut l = Vec::new();
-    for e in io_ctx(fs::read_dir(at), "read_dir", at)? { l.push(io_ctx(e, "read_dir entry", at)?.file_name().to_string_lossy().into_owned()); }
+    for e in io_ctx(fs::read_dir(at), "read_dir", at)? {
+      let name = io_ctx(e, "read_dir entry", at)?.file_name();
+      l.push(Name::new(std::os::unix::ffi::OsStrExt::as_bytes(name.as_os_str())));
+    }
     l.sort();
     Ok(l)
   }
@@ -1003,20 +1090,34 @@ fn run_unit(ctx: &mut Ctx, unit: &Unit) -> H<()> {
 // ---------------------------------------------------------------------------------------------------------------------
 
 struct Plan {
+  /// Base states (absent, files, directories over the six ASCII names at both mtimes) followed by the extended
+  /// directory states (name sets involving an extra name, mtime T1).
   alpha: Vec<St>,
+  n_base: usize,
   seq_alpha: Vec<St>,
   /// Start offsets of the phases in the flat item index space, plus the total as last element.
   starts: [usize; 5],
 }
 
 impl Plan {
-  fn new(alpha: Vec<St>, seq_alpha: Vec<St>) -> Plan {
+  fn new(mut alpha: Vec<St>, extended: Vec<St>, seq_alpha: Vec<St>) -> Plan {
+    let n_base = alpha.len();
+    alpha.extend(extended);
     let n = alpha.len();
     let m = seq_alpha.len();
     let counts = [n, n * 3, n * n, m * m];
     let mut starts = [0usize; 5];
     for p in 0..4 { starts[p + 1] = starts[p] + counts[p]; }
-    Plan { alpha, seq_alpha, starts }
+    Plan { alpha, n_base, seq_alpha, starts }
+  }
+
+  /// Which checkers run on the ordered pair (i, j). Base x base: all three. A pair involving an extended directory
+  /// state: entry names are observed by the hash checker only, so only `HashChecker` runs, and the partner is any
+  /// extended directory state, any base directory state at T1, Absent, or the smallest file state.
+  fn pair_checkers(&self, i: usize, j: usize) -> &'static [Ck] {
+    if i < self.n_base && j < self.n_base { return &Ck::ALL; }
+    let partner = |k: usize| k >= self.n_base || match &self.alpha[k] { St::Absent => true, St::Dir { mt, .. } => *mt == 0, St::File { .. } => k == 1 };
+    if partner(i) && partner(j) { &[Ck::Hash] } else { &[] }
   }
   fn total(&self) -> usize { self.starts[4] }
   fn items(&self, phase: usize) -> usize { self.starts[phase + 1] - self.starts[phase] }
@@ -1038,9 +1139,10 @@ impl Plan {
       }
       PHASE_PAIR => {
         let (i, j) = (idx / n, idx % n);
-        for (k, ck) in Ck::ALL.into_iter().enumerate() {
+        for (k, ck) in self.pair_checkers(i, j).iter().copied().enumerate() {
           ctx.order = (phase as u64, (idx * 3 + k) as u64);
           run_unit(ctx, &Unit::Pair { ck, s1: self.alpha[i].clone(), s2: Some(self.alpha[j].clone()), route: None })?;
+          ctx.tally.pair_units += 1;
         }
       }
       _ => {
@@ -1073,9 +1175,25 @@ fn preflight(root: &Path) -> H<()> {
   let mut ctx = Ctx::new(&root.join("preflight"), false)?;
   for st in [
     St::File { size: 1, var: Variant::Base, mt: 0 }, St::File { size: 1, var: Variant::Base, mt: 1 },
-    St::Dir { names: vec!["a".into()], mt: 0 }, St::Dir { names: vec!["a".into()], mt: 1 }, St::Absent,
+    St::Dir { names: vec![Name::new(b"a")], mt: 0 }, St::Dir { names: vec![Name::new(b"a")], mt: 1 }, St::Absent,
   ] { ctx.materialise_with(&st, true)?; ctx.materialise(&st)?; }
   ctx.verify_pool()
+}
+
+/// Probes every extra entry name: a name the file system refuses (or does not list back byte for byte) is left out
+/// of the alphabet with a recorded note. Returns (accepted, skipped with reason).
+fn probe_names(root: &Path) -> H<(Vec<(Name, &'static str)>, Vec<(Name, String)>)> {
+  let dir = root.join("probe");
+  io_ctx(fs::create_dir_all(&dir), "create probe dir", &dir)?;
+  let (mut ok, mut skipped) = (Vec::new(), Vec::new());
+  for (k, (name, why)) in extra_names().into_iter().enumerate() {
+    match Ctx::build_dir(&dir.join(format!("n{}", k)), std::slice::from_ref(&name)) {
+      Ok(()) => ok.push((name, why)),
+      Err(e) => skipped.push((name, e)),
+    }
+  }
+  io_ctx(fs::remove_dir_all(&dir), "remove probe dir", &dir)?;
+  Ok((ok, skipped))
 }
 
 /// Removes the scratch directory also when the harness unwinds.
@@ -1100,10 +1218,16 @@ fn run_enumeration(args: &Args, root: &Path) -> i32 {
   let mut rep = Report::new(args);
   rep.max_violations = 12;
   let sets = name_sets();
+  let (extra, names_skipped) = match probe_names(root) { Ok(x) => x, Err(e) => fail(root, &format!("C13 name probe: {}", e)) };
+  let extra_only: Vec<Name> = extra.iter().map(|(n, _)| n.clone()).collect();
+  let extra_sets = extra_name_sets(&extra_only);
+  let extended: Vec<St> = extra_sets.iter().map(|names| St::Dir { names: names.clone(), mt: 0 }).collect();
   let (sizes, wall_cap) = match args.tier { Tier::Quick => (QUICK_SIZES, 22.0), Tier::Thorough => (FULL_SIZES, 570.0) };
   let alpha = alphabet(sizes, &sets);
-  let seq_alpha = match args.tier { Tier::Quick => core_alphabet(), Tier::Thorough => alpha.clone() };
-  let plan = Plan::new(alpha, seq_alpha);
+  let mut seq_alpha = match args.tier { Tier::Quick => core_alphabet(), Tier::Thorough => alpha.clone() };
+  // Two non-UTF-8 single-name directories take part in the sequences as well.
+  seq_alpha.extend(extended.iter().filter(|s| matches!(s, St::Dir { names, .. } if names.len() == 1 && std::str::from_utf8(&names[0].0).is_err())).take(2).cloned());
+  let plan = Plan::new(alpha, extended, seq_alpha);
 
   let threads = args.extra.iter().find_map(|a| a.strip_prefix("threads=").and_then(|n| n.parse::<usize>().ok()))
     .unwrap_or_else(|| std::thread::available_parallelism().map(|n| n.get()).unwrap_or(4)).clamp(1, 16);
@@ -1120,6 +1244,7 @@ fn run_enumeration(args: &Args, root: &Path) -> i32 {
       let dir = root.join(format!("w{}", w));
       scope.spawn(move || -> Result<Tally, String> {
         let mut ctx = Ctx::new(&dir, false)?;
+        let dir = dir; // moved into the worker
         loop {
           if stop.load(Ordering::Relaxed) { break; }
           if start.elapsed().as_secs_f64() > wall_cap { capped.store(true, Ordering::Relaxed); stop.store(true, Ordering::Relaxed); break; }
@@ -1133,6 +1258,7 @@ fn run_enumeration(args: &Args, root: &Path) -> i32 {
           }
         }
         ctx.verify_pool()?;
+        let _ = fs::remove_dir_all(&dir); // each worker removes its own pooled directories (rmdir is slow here)
         ctx.tally.t_pie = PIE_TIME.with(|c| c.get());
         Ok(ctx.tally)
       })
@@ -1183,7 +1309,18 @@ fn run_enumeration(args: &Args, root: &Path) -> i32 {
     "not_judged": total.outcomes[c as usize][OUT_NOT_JUDGED],
   });
   rep.set("states", json!(total.states.len()));
-  rep.set("alphabet_states", json!(n));
+  rep.set("alphabet_states", json!({"base": plan.n_base, "extended_dirs": n - plan.n_base, "total": n}));
+  rep.set("pair_units", json!(total.pair_units));
+  rep.set("dir_state_selection", json!(format!(
+    "base: every subset of <= {} names of the {} ASCII names ({} sets) at both mtimes; extended: every subset of <= {} of the \
+     {} accepted extra names plus every pair (one ASCII name, one extra name) ({} sets) at mtime T1 only. write-open and \
+     untouched run on every state. pair phase: base x base with all three checkers; a pair involving an extended directory \
+     runs HashChecker only (names are observed by no other checker) against every extended directory, every base directory at \
+     T1, Absent and the smallest file, in both orders. seq phase: base alphabet (quick: core alphabet) plus two non-UTF-8 \
+     single-name directories.", MAX_NAMES, NAME_POOL.len(), sets.len(), MAX_EXTRA_NAMES, extra.len(), extra_sets.len())));
+  rep.set("extra_names", Value::Array(extra.iter().map(|(nm, why)| json!({"name": nm.encoded(), "bytes": nm.0.len(), "why": why})).collect()));
+  rep.set("names_skipped", Value::Array(names_skipped.iter().map(|(nm, e)| json!({"name": nm.encoded(), "reason": e})).collect()));
+  rep.set("name_encoding", json!("entry names are shown with every byte outside printable ASCII (and '%') as %XX"));
   rep.set("materialisations", json!(total.materialisations));
   rep.set("transitions", json!(total.pair_judged));
   rep.set("traces_validated_against_impl", json!(total.judged));
@@ -1196,7 +1333,7 @@ fn run_enumeration(args: &Args, root: &Path) -> i32 {
     "hash_recreated_same_nameset_dir": {"consistent": total.recreated_dir_consistent, "inconsistent_not_judged": total.recreated_dir_inconsistent},
     "hash_file_dir_kind_change_not_judged": {"inconsistent": total.kind_change[0], "consistent": total.kind_change[1]},
   }));
-  rep.set("hash_dir_collisions", json!(total.collisions.iter().map(|(a, b)| json!({"stamped": a, "checked": b})).collect::<Vec<_>>()));
+  rep.set("hash_dir_collisions", json!(total.collisions.iter().map(|(a, b)| json!({"stamped": names_json(a), "checked": names_json(b)})).collect::<Vec<_>>()));
   rep.set("findings_per_oracle", json!(all_per_oracle));
   rep.set("findings_beyond_worker_cap", json!(total.findings_dropped));
   rep.set("samples", Value::Array(samples));
@@ -1218,10 +1355,12 @@ fn run_enumeration(args: &Args, root: &Path) -> i32 {
   rep.set("bounds", json!({
     "file_sizes": sizes, "content_variants": ["base", "last-byte-differs", "first-byte-differs (size >= 2)"],
     "dir_name_pool": NAME_POOL, "dir_max_names": MAX_NAMES, "dir_name_sets": sets.len(),
+    "dir_extra_names": extra.len(), "dir_extra_max_names": MAX_EXTRA_NAMES, "dir_extra_name_sets": extra_sets.len(),
     "mtimes_unix_s": T_SECS, "pair_alphabet": n, "sequence_alphabet": plan.seq_alpha.len(), "sequence_length": 3,
     "wall_cap_s": wall_cap, "file_system_dir": root.parent().map(|p| p.display().to_string()),
   }));
-  rep.assume("entry names are ASCII names from the pool; directory entries are empty regular files");
+  rep.assume("entry names are the six ASCII names and the listed extra names (non-UTF-8 bytes, multi-byte UTF-8, U+FFFD, case, space, newline, 200 bytes); directory entries are empty regular files");
+  for (nm, e) in &names_skipped { rep.assume(&format!("entry name {:?} left out: {}", nm, e)); }
   rep.assume("hash checker: file<->directory changes and re-created directories with the same name set are recorded, not judged");
   rep.finish()
 }
@@ -1263,13 +1402,13 @@ mod test {
   use super::*;
 
   fn f(size: usize, var: Variant, mt: u8) -> St { St::File { size, var, mt } }
-  fn d(names: &[&str], mt: u8) -> St { let mut n: Vec<String> = names.iter().map(|s| s.to_string()).collect(); n.sort(); St::Dir { names: n, mt } }
+  fn d(names: &[&str], mt: u8) -> St { let mut n: Vec<Name> = names.iter().map(|s| Name::new(s.as_bytes())).collect(); n.sort(); St::Dir { names: n, mt } }
 
   #[test]
   fn alphabet_sizes() {
     let sets = name_sets();
     assert_eq!(sets.len(), 42);
-    assert_eq!(sets[0], Vec::<String>::new());
+    assert_eq!(sets[0], Vec::<Name>::new());
     assert!(sets.windows(2).all(|w| w[0].len() <= w[1].len()));
     assert_eq!(alphabet(QUICK_SIZES, &sets).len(), 1 + (1 + 2 + 3 + 3) * 2 + 84);
     assert_eq!(alphabet(FULL_SIZES, &sets).len(), 1 + (1 + 2 + 3 * 5) * 2 + 84);
@@ -1365,6 +1504,35 @@ mod test {
       Unit::Pair { ck: Ck::Hash, s1, s2: Some(s2), route: Some(Route::Path) } => { assert_eq!(s1, d(&["ba"], 0)); assert_eq!(s2, d(&["a", "b"], 0)); }
       o => panic!("{:?}", o),
     }
+  }
+
+  #[test]
+  fn extra_names_and_sets() {
+    let extra: Vec<Name> = extra_names().into_iter().map(|(n, _)| n).collect();
+    let distinct: BTreeSet<&Name> = extra.iter().collect();
+    assert_eq!(distinct.len(), extra.len());
+    assert!(extra.iter().all(|n| !NAME_POOL.iter().any(|o| o.as_bytes() == n.0.as_slice()) && n.0.len() <= 255));
+    // Reversible text form, also for non-UTF-8 bytes, spaces, newlines and '%'.
+    for n in extra.iter().chain([Name::new(b"100%"), Name::new(b"%41")].iter()) { assert_eq!(&Name::decode(&n.encoded()).unwrap(), n); }
+    assert_eq!(Name::new(b"x\xE9").encoded(), "x%E9");
+    assert_eq!(Name::new(b"a b").encoded(), "a%20b");
+    assert!(Name::decode("a/b").is_err() && Name::decode("..").is_err() && Name::decode("%00").is_err() && Name::decode("").is_err());
+    let k = extra.len();
+    let sets = extra_name_sets(&extra);
+    assert_eq!(sets.len(), k + k * (k - 1) / 2 + k * NAME_POOL.len());
+    let distinct: BTreeSet<&Vec<Name>> = sets.iter().collect();
+    assert_eq!(distinct.len(), sets.len());
+    let base: BTreeSet<Vec<Name>> = name_sets().into_iter().collect();
+    assert!(sets.iter().all(|s| !base.contains(s) && s.windows(2).all(|w| w[0] < w[1])));
+    // The lossy-conversion pairs are both present, so is the pair they would collide with.
+    let has = |names: &[&[u8]]| { let mut v: Vec<Name> = names.iter().map(|b| Name::new(b)).collect(); v.sort(); sets.contains(&v) };
+    assert!(has(&[b"\xFF"]) && has(&[b"\xFE"]) && has(&[b"x\xE9"]) && has(&[b"x\xE8"]) && has(&["\u{FFFD}".as_bytes()]));
+    assert!(has(&[b"A"]) && has(&[b"a", b"A"]) && has(&[b"a\nb"]) && has(&[b"a b"]));
+    // Different name sets are judged "inconsistent" whatever the bytes.
+    let dd = |b: &[u8]| St::Dir { names: vec![Name::new(b)], mt: 0 };
+    assert_eq!(reference(Ck::Hash, &dd(b"\xFF"), &dd(b"\xFE"), false), (Expect::Inconsistent, "C13/hash-dir-nameset"));
+    assert_eq!(reference(Ck::Hash, &dd(b"\xFF"), &dd("\u{FFFD}".as_bytes()), false).0, Expect::Inconsistent);
+    assert_eq!(reference(Ck::Hash, &dd(b"\xFF"), &dd(b"\xFF"), false).0, Expect::ConsistentUnlessReordered);
   }
 
   #[test]
